@@ -49,8 +49,12 @@ NoKey == "-"
 DomX == Fams \cup {"none", "other"}     \* domains a consumer may ask with / an attacker may sign under
                                         \* ("none" = the empty string, "other" = an unrelated string)
 TypX == Fams \cup {"empty", "unreg"}    \* payload types that may appear on the wire
-JunkPay == [fam |-> "junk", owner |-> NoKey, body |-> 0]     \* bytes no record type can parse
-Pays == [fam : Fams, owner : Keys, body : Bodies] \cup {JunkPay}
+\* A payload names an owner (the peer ID a peer record / voucher is about).  oenc = "alt": the owner field
+\* is a LOOK-ALIKE of the owner's ID - an identity multihash over a non-canonical serialisation of the
+\* owner's key - which parses to that key but is not IDFromPublicKey(key) (RE-ENCODE capability, part C).
+JunkPay == [fam |-> "junk", owner |-> NoKey, body |-> 0, oenc |-> "canon"]     \* bytes no record type can parse
+Pays == [fam : Fams, owner : Keys, body : Bodies, oenc : {"canon"}]
+        \cup [fam : {"peer"}, owner : Keys, body : {1}, oenc : {"alt"}] \cup {JunkPay}
 
 \* The signed pre-image.  "code": all three components, each delimited (injective, part B).
 Pre(d, t, p) ==
@@ -62,13 +66,19 @@ Pre(d, t, p) ==
 \* Sign(k, m) is the term [k, m]; BadSig is a bit string that is no signature of anything.
 Sig(k, d, t, p) == [k |-> k, m |-> Pre(d, t, p)]
 BadSig == [k |-> NoKey, m |-> <<"-", "-", JunkPay>>]
-Verify(k, m, s) == IF Variant = "nokey" THEN s.k # NoKey /\ s.m = m
-                   ELSE s.k = k /\ s.m = m            \* the signature axiom (part C)
+\* senc: how the signature term is encoded on the wire - "lib" = what the library's Sign emits, "alt" = any
+\* other encoding of the same term (the attacker's RE-ENCODE capability: DER / raw / compact / high-S ...).
+\* kenc likewise for the public key field ("alt" = a non-canonical serialisation of the same key).
+\* The axiom does not depend on the encoding; a decoder may refuse an "alt" encoding ("maybe").
+Verify(k, m, s, senc) ==
+  CASE Variant = "nokey"                   -> s.k # NoKey /\ s.m = m
+    [] Variant = "anyenc" /\ senc = "alt"  -> s.k # NoKey /\ s.m = m   \* broken: alt encodings skip the key
+    [] OTHER                               -> s.k = k /\ s.m = m        \* the signature axiom (part C)
 
-Garbage == [ok |-> FALSE, key |-> NoKey, typ |-> "empty", pay |-> JunkPay, sig |-> BadSig]
+Garbage == [ok |-> FALSE, key |-> NoKey, kenc |-> "canon", typ |-> "empty", pay |-> JunkPay, sig |-> BadSig, senc |-> "lib"]
 Sealed(k, f, owner, body) ==
-  LET p == [fam |-> f, owner |-> owner, body |-> body]
-  IN [ok |-> TRUE, key |-> k, typ |-> f, pay |-> p, sig |-> Sig(k, f, f, p)]
+  LET p == [fam |-> f, owner |-> owner, body |-> body, oenc |-> "canon"]
+  IN [ok |-> TRUE, key |-> k, kenc |-> "canon", typ |-> f, pay |-> p, sig |-> Sig(k, f, f, p), senc |-> "lib"]
 Tuple(k, d, t, p) == [k |-> k, d |-> d, t |-> t, p |-> p]
 
 \* consumers: kind and the domain they ask with
@@ -82,17 +92,20 @@ Parse(f, p) == IF p.fam = "junk" THEN "no" ELSE IF p.fam = f THEN "yes" ELSE "ma
 And3(a, b) == IF a = "no" \/ b = "no" THEN "no" ELSE IF a = "maybe" \/ b = "maybe" THEN "maybe" ELSE "yes"
 B3(x) == IF x THEN "yes" ELSE "no"
 
-\* Envelope.validate(domain)
-Valid(w, d) == w.ok /\ Verify(w.key, Pre(d, w.typ, w.pay), w.sig)
+\* Envelope.validate(domain): "maybe" when an alternative encoding is involved (the decoder may refuse it)
+Valid(w, d) == IF ~(w.ok /\ Verify(w.key, Pre(d, w.typ, w.pay), w.sig, w.senc)) THEN "no"
+               ELSE IF w.kenc = "alt" \/ w.senc = "alt" THEN "maybe" ELSE "yes"
 
 \* record.ConsumeEnvelope(bytes, d): unmarshal, validate, registry lookup by payload type, unmarshal
-Untyped(w, d) == IF ~Valid(w, d) \/ w.typ \notin Fams THEN "no" ELSE Parse(w.typ, w.pay)
+Untyped(w, d) == IF Valid(w, d) = "no" \/ w.typ \notin Fams THEN "no" ELSE And3(Valid(w, d), Parse(w.typ, w.pay))
 \* record.ConsumeTypedEnvelope(bytes, rec of family f): validate with rec.Domain(); the payload type
 \* on the wire is NOT compared with rec.Codec() (documented: caller's responsibility)
-Typed(w, f) == IF ~Valid(w, f) THEN "no" ELSE Parse(f, w.pay)
+Typed(w, f) == And3(Valid(w, f), Parse(f, w.pay))
 \* identify's pipeline: ConsumeEnvelope(bytes, peer-record domain); AddrBook.ConsumePeerRecord
 \* (record must be a *PeerRecord, rec.PeerID.MatchesPublicKey(envelope.PublicKey))
-OwnerOK(w) == Variant = "noowner" \/ w.pay.owner = w.key
+\* (a look-alike of the signer's ID is NOT the signer's ID)
+OwnerOK(w) == \/ Variant = "noowner"
+              \/ w.pay.owner = w.key /\ (w.pay.oenc = "canon" \/ Variant = "lookalike")
 PeerStore(w) == And3(Untyped(w, "peer"), B3(w.typ = "peer" /\ OwnerOK(w)))
 \* relay client: ConsumeEnvelope(bytes, voucher domain); record must be a *ReservationVoucher
 Voucher(w) == And3(Untyped(w, "rsvp"), B3(w.typ = "rsvp"))
@@ -119,18 +132,33 @@ Edit(w, nm, arg, sg) ==
 NoArg == [x |-> 0]
 EditA ==
   /\ st.wire.ok
-  /\ \/ \E k \in Keys : Edit([st.wire EXCEPT !.key = k], "setkey", [key |-> k], st.signed)
+  /\ \/ \E k \in Keys : Edit([st.wire EXCEPT !.key = k, !.kenc = "canon"], "setkey", [key |-> k], st.signed)
      \/ \E t \in TypX : Edit([st.wire EXCEPT !.typ = t], "settype", [typ |-> t], st.signed)
-     \/ \E p \in Pays : Edit([st.wire EXCEPT !.pay = p], "setpay", [pay |-> p], st.signed)
-     \/ Edit([st.wire EXCEPT !.sig = BadSig], "badsig", NoArg, st.signed)
+     \/ \E p \in Pays : /\ (p.body = 1 \/ p = st.second.pay \/ p = JunkPay)   \* (bodies add nothing to an attacker's choice)
+                      /\ Edit([st.wire EXCEPT !.pay = p], "setpay", [pay |-> p], st.signed)
+     \/ Edit([st.wire EXCEPT !.sig = BadSig, !.senc = "lib"], "badsig", NoArg, st.signed)
+     \* RE-ENCODE: the same key / the same signature term in another encoding
+     \/ /\ st.wire.kenc = "canon"
+        /\ Edit([st.wire EXCEPT !.kenc = "alt"], "reencode", [field |-> "key"], st.signed)
+     \/ /\ st.wire.senc = "lib" /\ st.wire.sig # BadSig
+        /\ Edit([st.wire EXCEPT !.senc = "alt"], "reencode", [field |-> "sig"], st.signed)
+     \* the attacker seals an envelope of his own from scratch (only sensible as a first move): any family,
+     \* any owner incl. a look-alike of an ID, signature in the library's or in an alternative encoding
+     \/ /\ st.edits = 0
+        /\ \E k \in AttKeys, p \in Pays \ {JunkPay}, se \in {"lib", "alt"} :
+             /\ p.body = 1 /\ p.fam = "peer" /\ p.owner \in {k, "kH"}   \* about himself or about the victim
+             /\ Edit([ok |-> TRUE, key |-> k, kenc |-> "canon", typ |-> p.fam, pay |-> p,
+                      sig |-> Sig(k, p.fam, p.fam, p), senc |-> se], "attseal", [key |-> k, pay |-> p, senc |-> se],
+                     st.signed \cup {Tuple(k, p.fam, p.fam, p)})
      \/ Edit(Garbage, "truncate", NoArg, st.signed)
      \* the attacker seals the current (type, payload) under a domain of his choice with his own key;
      \* the key field is a separate edit
      \/ \E k \in AttKeys, d \in DomX :
-          Edit([st.wire EXCEPT !.sig = Sig(k, d, st.wire.typ, st.wire.pay)], "resign", [key |-> k, d |-> d],
+          Edit([st.wire EXCEPT !.sig = Sig(k, d, st.wire.typ, st.wire.pay), !.senc = "lib"], "resign", [key |-> k, d |-> d],
                st.signed \cup {Tuple(k, d, st.wire.typ, st.wire.pay)})
      \/ \E f \in {"key", "typ", "pay", "sig"} :
-          Edit([st.wire EXCEPT ![f] = st.second[f]], "swap", [field |-> f], st.signed)
+          Edit([st.wire EXCEPT ![f] = st.second[f], !.kenc = IF f = "key" THEN "canon" ELSE @,
+                               !.senc = IF f = "sig" THEN "lib" ELSE @], "swap", [field |-> f], st.signed)
 
 ConsumeA ==
   \E c \in Consumers :
@@ -147,11 +175,11 @@ BindingA ==
     \A c \in Consumers :
       Res(c, st.wire) # "no" =>
         /\ Tuple(st.wire.key, c.d, st.wire.typ, st.wire.pay) \in st.signed
-        /\ c.kind \in {"pmem", "pds"} => st.wire.pay.owner = st.wire.key
+        /\ c.kind \in {"pmem", "pds"} => (st.wire.pay.owner = st.wire.key /\ st.wire.pay.oenc = "canon")
 \* honest keys signed only what their holders sealed
 HonestA ==
   st.part = "A" =>
-    \A s \in st.signed : s.k \notin AttKeys => /\ s.d = s.t /\ s.p.fam = s.t /\ s.p.owner = s.k
+    \A s \in st.signed : s.k \notin AttKeys => /\ s.d = s.t /\ s.p.fam = s.t /\ s.p.owner = s.k /\ s.p.oenc = "canon"
                                                 /\ s.k \in {"kH", "kV"}
 \* the unedited envelope is accepted by the consumers of its family (round trip)
 RoundTripA ==
@@ -166,6 +194,13 @@ TypeOKA ==
 \* foreign-signer peer record passes ConsumeEnvelope
 ReachAttackerAccepted ==
   ~(st.part = "A" /\ st.wire.key \in AttKeys /\ \E c \in Consumers : Res(c, st.wire) = "yes")
+\* a record naming a look-alike of the signer's own ID, validly sealed by that signer, reaches a store
+ReachLookalike ==
+  ~(st.part = "A" /\ st.wire.ok /\ st.wire.pay.oenc = "alt" /\ st.wire.pay.owner = st.wire.key
+    /\ Untyped(st.wire, "peer") = "yes")
+\* a signature by another key in an alternative encoding sits in an envelope carrying the victim's key
+ReachForeignAltSig ==
+  ~(st.part = "A" /\ st.wire.ok /\ st.wire.senc = "alt" /\ st.wire.sig.k \in AttKeys /\ st.wire.key = "kH")
 ReachForeignOwner ==
   ~(st.part = "A" /\ st.wire.ok /\ st.wire.pay.fam = "peer" /\ st.wire.pay.owner # st.wire.key
     /\ Untyped(st.wire, "peer") = "yes")
@@ -324,6 +359,33 @@ DecodeEditedC ==
   /\ \E e \in Surgeries :
        /\ st' = [st EXCEPT !.form = IF st.form = "pkpb" THEN "pk" ELSE "sk", !.via = e]
        /\ op' = [name |-> "decodex", edit |-> e, from |-> st.form]
+\* RE-ENCODE, the attacker's capability over terms it knows or can make.  (1) Signatures: the attacker is
+\* not limited to what the library's own Sign emits; it presents the held signature term in ANY encoding
+\* (re-encoded without the private key, or made afresh with the signer's private key: DER, raw r||s,
+\* compact recoverable with every recovery code, high-S, trailing bytes, other padding / hash / scheme).
+\* Verify under key K for message m MAY succeed only if the term is Sign(K, m) - never otherwise.
+VerifyEncC ==
+  /\ st.form = "pk" /\ st.sig # NoSig /\ ~st.sig.mut
+  /\ UNCHANGED st
+  /\ \E m \in Msgs : op' = [name |-> "verifyenc", m |-> m, may |-> VerifyOK(st.kt, st.who, m)]
+\* (2) Peer IDs: an identity multihash over ANY serialisation of a known key (a non-canonical one from
+\* Surgeries, or the canonical one of a key too long to be inlined) parses to the key but is NOT
+\* IDFromPublicKey(key): a look-alike.  For any ID x and key K: x.MatchesPublicKey(K) => x = ID(K), so a
+\* look-alike matches no key, and no consumer (address books, key books) accepts the pair.
+LookalikeC ==
+  /\ st.form = "pkpb" /\ st.sig = NoSig
+  /\ \E e \in Surgeries \cup {"x-canonical"} :
+       /\ st' = [st EXCEPT !.form = "idx", !.via = e]
+       /\ op' = [name |-> "lookalike", edit |-> e]
+LookalikeUseC ==
+  /\ st.form = "idx"
+  /\ \/ /\ UNCHANGED st
+        /\ \/ \E kt \in KeyTypes, w \in Who : op' = [name |-> "matchesx", kt |-> kt, who |-> w, ok |-> FALSE]
+           \/ op' = [name |-> "consumex", ok |-> FALSE]
+     \* the key embedded in a look-alike is, when it parses and Equals, the original key (with ITS ID)
+     \/ /\ st.via # "x-canonical"
+        /\ st' = [st EXCEPT !.form = "pk"]
+        /\ op' = [name |-> "extractx"]
 \* equality / ID-matching matrix against every reference key
 EqualsC ==
   /\ UNCHANGED st /\ st.sig = NoSig
@@ -343,18 +405,23 @@ LenC ==
   /\ UNCHANGED st
   /\ \E n \in 40..45 : op' = [name |-> "idlen", n |-> n, embed |-> (n <= 42)]
 
-NextC == ConvertC \/ DecodeEditedC \/ ExtractC \/ PickC \/ SignC \/ MutSigC \/ VerifyC \/ EqualsC \/ MutFormC \/ LenC
+NextC == ConvertC \/ DecodeEditedC \/ VerifyEncC \/ LookalikeC \/ LookalikeUseC \/ ExtractC \/ PickC \/ SignC \/ MutSigC \/ VerifyC \/ EqualsC \/ MutFormC \/ LenC
 
 \* Verify succeeds only for the signer's key and the signed message, unmutated
 AxiomC ==
-  [][(op'.name = "verify" /\ op'.ok) =>
-        (st.sig.kt = st.kt /\ st.sig.who = st.who /\ st.sig.m = op'.m /\ ~st.sig.mut)]_vars
+  [][/\ (op'.name = "verify" /\ op'.ok) =>
+          (st.sig.kt = st.kt /\ st.sig.who = st.who /\ st.sig.m = op'.m /\ ~st.sig.mut)
+     \* no encoding of a signature term may verify under another key or for another message
+     /\ (op'.name = "verifyenc" /\ op'.may) =>
+          (st.sig.kt = st.kt /\ st.sig.who = st.who /\ st.sig.m = op'.m)
+     \* a look-alike ID matches nobody
+     /\ (op'.name \in {"matchesx", "consumex"}) => ~op'.ok]_vars
 \* conversions never change whose key / ID the datum is
-IdentityC == [][(op'.name \in {"conv", "extract", "decodex"}) => (st'.kt = st.kt /\ st'.who = st.who)]_vars
+IdentityC == [][(op'.name \in {"conv", "extract", "decodex", "lookalike", "extractx"}) => (st'.kt = st.kt /\ st'.who = st.who)]_vars
 TypeOKC ==
   st.part = "C" => /\ st.kt \in KeyTypes /\ st.who \in Who
-                   /\ st.form \in {c.f : c \in Conv} \cup {c.t : c \in Conv}
-                   /\ (st.form \in ObjForms) = (st.via # "-")
+                   /\ st.form \in {c.f : c \in Conv} \cup {c.t : c \in Conv} \cup {"idx"}
+                   /\ (st.form \in ObjForms \cup {"idx"}) = (st.via # "-")
 \* vacuity guard (expected to be VIOLATED)
 ReachExtracted == ~(st.part = "C" /\ st.form = "pk" /\ st.via = "id" /\ st.sig # NoSig)
 =============================================================================
